@@ -632,17 +632,26 @@ where
         let IncarnationExecution { result, accesses } =
             executor.execute_incarnation(tx_version.clone(), tx_env);
         #[cfg(grevm_verif)]
-        crate::verif::p5(
+        crate::verif::point(
             "exec_ret",
-            txid as i64,
-            incarnation as i64,
-            match &result {
-                Ok(_) => 0,
-                Err(EVMError::Transaction(_)) => 1,
-                Err(_) => 2,
-            },
-            accesses.is_blocked() as i64,
-            accesses.blocked_by_beneficiary as i64,
+            [
+                txid as i64,
+                incarnation as i64,
+                match &result {
+                    Ok(_) => 0,
+                    Err(EVMError::Transaction(_)) => 1,
+                    Err(_) => 2,
+                },
+                accesses.is_blocked() as i64,
+                accesses.blocked_by_beneficiary as i64,
+                crate::verif::intern(match &result {
+                    Ok(r) => r.verif_digest(),
+                    Err(EVMError::Transaction(e)) => format!("invalid:{e:?}"),
+                    Err(EVMError::Database(_)) => "fatal:database".to_owned(),
+                    Err(EVMError::Custom(e)) => format!("fatal:custom:{e}"),
+                    Err(_) => "fatal:other".to_owned(),
+                }),
+            ],
         );
 
         // If this incarnation expands its write set, already validated suffix transactions may
